@@ -23,16 +23,20 @@ def _ex():
     return ex, jnp
 
 
+# resolution changes with an integer ratio (a strided shortcut would be exact on coarse-band-limited states only)
+INTEGER_RATIO = [(1, 12, 6), (1, 12, 4), (1, 9, 3), (1, 15, 5), (2, 8, 4), (2, 9, 3), (1, 6, 12), (1, 5, 15), (2, 4, 8), (3, 6, 3), (1, 16, 8), (2, 6, 3), (2, 3, 9)]
+
+
 def correspond(ctx):
     ex, jnp = _ex()
     rng = ctx.rng
     cases, meta = [], []
     if ctx.quick:
-        pairs = [(1, 6, 9), (1, 9, 6), (1, 7, 8), (1, 8, 7), (2, 4, 6), (2, 6, 4), (2, 5, 6), (2, 6, 5), (2, 5, 7), (3, 4, 5), (3, 5, 4)]
+        pairs = [(1, 6, 9), (1, 9, 6), (1, 7, 8), (1, 8, 7), (2, 4, 6), (2, 6, 4), (2, 5, 6), (2, 6, 5), (2, 5, 7), (3, 4, 5), (3, 5, 4)] + INTEGER_RATIO[:6]
     else:
         pairs = [(1, a, b) for a in range(3, 13) for b in range(3, 13) if 0 < abs(a - b) <= 3] + \
                 [(2, a, b) for a in range(3, 10) for b in range(3, 10) if 0 < abs(a - b) <= 3] + \
-                [(3, a, b) for a in range(3, 7) for b in range(3, 7) if 0 < abs(a - b) <= 2]
+                [(3, a, b) for a in range(3, 7) for b in range(3, 7) if 0 < abs(a - b) <= 2] + INTEGER_RATIO
     for D, n, m in pairs:
         for ob in (True, False):
             u = rng.standard_normal((1,) + (n,) * D) + 0.5
@@ -139,6 +143,7 @@ def witness(ctx):
             ctx.check("interp_grid", dict(D=D, N=N, C=1, L=1.7, seed=ctx.seed, xy=True))
     rng = ctx.rng
     pairs = [(1, 11, 12), (1, 12, 11), (1, 8, 13), (1, 13, 8), (2, 5, 6), (2, 6, 5), (2, 7, 9), (2, 8, 6), (3, 4, 5), (3, 5, 4)]
+    pairs += INTEGER_RATIO[:7] if not deep else INTEGER_RATIO
     if deep:
         pairs += [(1, a, b) for a in range(3, 13) for b in range(3, 13) if 0 < abs(a - b) <= 3] + [(2, a, b) for a in range(3, 9) for b in range(3, 9) if 0 < abs(a - b) <= 2]
     for D, n, m in pairs:
